@@ -110,6 +110,7 @@ void event(const std::string& line);                // K_EV record, any thread
 void yield_point();                                 // explicit scheduling point (operation START)
 bool at_boundary(int tid);                          // thread is at an operation START (or has not started)
 void step_point();                                  // scheduling point for a harness-level step (e.g. one plain access of a functor)
+void clock_snapshot(uint32_t out[16]);               // happens-before vector clock of the calling logical thread (race/weak mode)
 int self();                                         // logical tid (0 = main)
 uint64_t choose(uint64_t n);                        // recorded nondeterministic choice in [0,n)
 void fail(int status, const std::string& detail);   // harness oracle reports a violation
